@@ -123,6 +123,15 @@ Proof.
   - apply Z.eqb_neq in E. destruct (cell_get k r); auto. apply cell_get_set_neq; auto.
 Qed.
 
+Lemma cell_get_keep_keys orig k : forall cs,
+  cell_get k (keep_keys orig cs) = if has_key k orig then cell_get k cs else None.
+Proof.
+  unfold keep_keys. induction cs as [|[k0 v0] r IH]; cbn [filter cell_get fst]; [destruct (has_key k orig); reflexivity|].
+  destruct (has_key k0 orig) eqn:H0; cbn [cell_get].
+  - destruct (k0 =? k) eqn:E; [apply Z.eqb_eq in E; subst k0; rewrite H0; reflexivity | exact IH].
+  - destruct (k0 =? k) eqn:E; [apply Z.eqb_eq in E; subst k0; rewrite H0 in IH |- *; exact IH | exact IH].
+Qed.
+
 (* the keys the fresh instance made by self.__class__(span=...) inside copy() ends up with *)
 Definition copy_fresh_keys (K : consts) (h : heap) (r : loc) : list Z :=
   match nth_error h r with
@@ -140,21 +149,19 @@ Definition copy_fresh_keys (K : consts) (h : heap) (r : loc) : list Z :=
   | None => []
   end.
 
-(* copy_observationally_equal.  Hypotheses: the original's __dict__ has no duplicate keys (true of every dict) and every
-   key a FRESH instance of the class gets is a key the original has (true unless the class's NAMES list was extended after
-   the original was created — see HeapExamples.copy_after_class_mutation_has_extra_cell) *)
+(* copy_observationally_equal.  Hypothesis: the original's __dict__ has no duplicate keys (true of every dict).  Since fix eb971db
+   the copy drops whatever __init__ of the class as it is NOW set up beyond the original's entries: no hypothesis about the class *)
 Theorem copy_sim K h r h' r' o :
   copy_M K h r = Some (h', r') -> wf h -> nth_error h r = Some o ->
   NoDup (map fst (ocells o)) ->
-  (forall k, In k (copy_fresh_keys K h r) -> In k (map fst (ocells o))) ->
   (exists o', nth_error h' r' = Some o' /\ okind o' = okind o) /\ forall n, sim n h' (VR r) (VR r').
 Proof.
-  intros H W Ho ND FK. pose proof H as Hc. unfold copy_M in H. unfold copy_fresh_keys in FK. rewrite Ho in H, FK.
+  intros H W Ho ND. pose proof H as Hc. unfold copy_M in H. rewrite Ho in H.
   destruct (okind o) as [| | | |c|] eqn:Kd; try discriminate.
   destruct (cell_get (A N_span) (ocells o)) as [sp|] eqn:Esp; [|discriminate].
   destruct (deepcopy h sp) as [[h1 sp']|] eqn:D; [|discriminate].
   destruct (init_M h1 c K (default_iargs K (val_src sp') (arr_len h r [V N_status]))) as [[h2 r2] ok] eqn:I.
-  cbn [fst snd] in H, FK. destruct ok; [|discriminate].
+  cbn [fst snd] in H. destruct ok; [|discriminate].
   destruct (dc_entries_pol (k_single_memo K) h2 (ocells o)) as [[h3 cs']|] eqn:E; [|discriminate].
   destruct (nth_error h3 r2) as [o'|] eqn:Eo'; [|discriminate].
   inversion H; subst r'; clear H. set (N := length h).
@@ -185,7 +192,7 @@ Proof.
   { intros l Hl. assert (l < length h)%nat; [|lia]. eapply W; [exact Ho | destruct o; exact Hl]. }
   pose proof (dc_entries_pol_sim _ _ _ _ _ E W2 Bo) as Sim.
   split.
-  - exists (mkObj (okind o') (dict_update (ocells o') cs')). split; [|simpl; congruence].
+  - exists (mkObj (okind o') (keep_keys (ocells o) (dict_update (ocells o') cs'))). split; [|simpl; congruence].
     unfold set_obj. rewrite nth_error_upd_same, Nat.eqb_refl.
     destruct (Nat.ltb (length h1) (length h3)) eqn:Lt; auto. apply Nat.ltb_ge in Lt. lia.
   - intros [|n]; [exact Logic.I|]. cbn [sim]. unfold set_obj.
@@ -197,8 +204,10 @@ Proof.
     cbn [okind ocells]. split; [congruence|]. rewrite Kd. cbn [is_cont].
     intros k. pose proof (cells_sim_get _ _ _ k Sim) as G.
     assert (ND' : NoDup (map fst cs')) by (rewrite Keys; exact ND).
+    rewrite cell_get_keep_keys. unfold has_key.
+    destruct (cell_get k (ocells o)) as [w|] eqn:G1; [|exact Logic.I].
     rewrite (cell_get_dict_update _ _ _ ND').
-    destruct (cell_get k (ocells o)) as [w|] eqn:G1; destruct (cell_get k cs') as [w'|] eqn:G2; try contradiction.
+    destruct (cell_get k cs') as [w'|] eqn:G2; try contradiction.
     + (* a key of the original: its deep copy, still observationally equal in the final heap *)
       apply sim_upd_irrelevant; auto.
       * intros l Hl. assert (l < N)%nat; [|lia].
@@ -214,8 +223,4 @@ Proof.
         assert (Vw : val_ok (length h2) h3 (VR rw)).
         { unfold cells_ok in K3. rewrite Forall_forall in K3. apply (K3 (k, VR rw)). eapply cell_get_in; eauto. }
         simpl in Vw. eapply closed_above_reach; [exact C3 | | exact Hl]. lia.
-    + (* not a key of the original: then not a key of a fresh instance either *)
-      destruct (cell_get k (ocells o')) as [w0|] eqn:G0; auto.
-      apply cell_get_none_notin in G1. apply G1. apply FK.
-      rewrite Eo2. apply in_map_iff. exists (k, w0). split; auto. eapply cell_get_in; eauto.
 Qed.
